@@ -81,6 +81,11 @@ def sessions(ctx, progs, n, leg):
                           {"forms": [show(f) for f in forms], "detail": detail, "leg": leg})
 
 
+def file_transport(ctx, progs, n, leg):
+    r = ctx.rng
+    diff.file_transport(ctx, [v[r.choice(gen_core.SPELLINGS)] for v in r.sample(progs, min(n, len(progs)))], leg, "a core program")
+
+
 def values_only(steps):
     return [(json.dumps(s.get("ok"), sort_keys=True), json.dumps(s.get("trace", []))) if "ok" in s else ("E", json.dumps(s.get("err", s.get("panic")), sort_keys=True)[:80]) for s in steps]
 
@@ -144,6 +149,7 @@ def run(tier, seed):
                                   {"plain": [show(f) for f in progs[i]["plain"]], sp: [show(f) for f in progs[i][sp]]})
         ctx.legs.append(leg)
     sessions(ctx, progs, 40 if tier == "quick" else core.share(1600), legs[-1])
+    file_transport(ctx, progs, 300 if tier == "quick" else core.share(6000), legs[-1])
     for v in progs[:2]:
         ctx.sample({sp: [show(f) for f in forms] for sp, forms in list(v.items())[:2]})
     return ctx.finish(min_evals=200, min_nontrivial=50)
